@@ -288,6 +288,18 @@ class CSSNamespaceRule(cssrule.CSSRule):
                 return
             else:
                 prefix = self._tokenvalue(prefixtoken)
+
+        sheet = self.parentStyleSheet
+        if sheet is not None and prefix != self._prefix:
+            for r in sheet.cssRules:
+                if r is not self and r.type == r.NAMESPACE_RULE and r.prefix == prefix:
+                    self._log.error(
+                        'CSSNamespaceRule: Prefix "%s" is already used in this sheet.'
+                        % prefix,
+                        error=xml.dom.InvalidModificationErr,
+                    )
+                    return
+
         # update seq
         for i, x in enumerate(self._seq):
             if x.type == 'prefix':
